@@ -5,7 +5,7 @@ import (
 	"go/types"
 	"strings"
 
-	"golang.org/x/tools/go/ssa"
+	"verif/third_party/xtools/go/ssa"
 
 	"verif/internal/core"
 )
